@@ -316,6 +316,188 @@ def state_lock_wrapping(eng: Engine, ck: Check, rule: str, only=('__init__', '__
     return out
 
 
+def lock_wrapper_forwards_arguments(eng: Engine, ck: Check, rule: str, relies: str):
+    """Both dispatch paths of the state-lock wrapper (the method the caller looked up; the same operation of the state that is current
+    once the lock is held) receive ALL the caller's arguments: `*args` and `**kwargs` of the wrapper.  The re-dispatch path is taken only
+    when the transfer changed state while the call waited for the lock; an argument lost there (`abort(reason=REQUESTED)` is passed by
+    keyword) silently becomes the default."""
+    wsl = eng.func(TSTATE, '_with_state_lock')
+    wrapper = eng.repo.find_func(TSTATE, '_with_state_lock.<locals>.wrapper')
+    if wrapper is None:
+        raise AnalysisError('anchor vanished: _with_state_lock.<locals>.wrapper')
+    ck.visited(wrapper)
+    a = wrapper.node.args
+    fparam = wsl.params[0] if wsl.params else 'func'
+    sa_w = single_assignments(wrapper)
+    n = 0
+    for c in calls_in(wrapper.node):
+        looked_up = isinstance(c.func, ast.Name) and isinstance(sa_w.get(c.func.id), ast.Call) and call_name(sa_w[c.func.id]) == 'getattr'
+        if not ((isinstance(c.func, ast.Name) and c.func.id == fparam) or looked_up):
+            continue
+        n += 1
+        star = not a.vararg or any(isinstance(x, ast.Starred) and unparse(x.value) == a.vararg.arg for x in c.args)
+        dstar = not a.kwarg or any(k.arg is None and unparse(k.value) == a.kwarg.arg for k in c.keywords)
+        named = [p_.arg for p_ in a.posonlyargs + a.args + a.kwonlyargs][1:]
+        passed = {unparse(x) for x in c.args} | {unparse(k.value) for k in c.keywords}
+        rest = all(p_ in passed for p_ in named)
+        ck.ob(rule, wrapper, c, f'`{unparse(c.func)}(..)` in the state-lock wrapper receives all the caller\'s arguments ({relies})', star and dstar and rest,
+              f'`{unparse(c)}` drops {"*" + a.vararg.arg if not star else ""} {"**" + a.kwarg.arg if not dstar else ""}: on this dispatch path the operation runs with its defaults '
+              '(abort(reason=..) becomes abort(): an upload aborted on request has no reason and is queued again by the next shares / block-list evaluation)',
+              construct=f'wrapper forwards arguments to {"looked-up method" if looked_up else "bound method"}')
+    ck.floor(rule + '.wrapper_calls', n, 1)
+
+
+# --------------------------------------------------------------------------- a state-change listener never waits for its own deliverer
+def listener_never_awaits_deliverer(eng: Engine, ck: Check, rule: str, relies: str):
+    """The report of a connection's state change is delivered by `await`ing every listener, one after the other, INSIDE whichever task
+    closed the connection: the reader task on EOF, but also any task whose send failed (`_send` -> disconnect(WRITE_ERROR)) -- or a child
+    task that such a task awaits (`send_server_messages` gathers its sends).  A listener that awaits the end of a library task therefore
+    waits for ITSELF whenever that task's body can reach a send: the listener never returns, the listeners after it never hear about
+    the close (session not destroyed, rooms / users not reset, no reconnect).  For every listener of ConnectionStateChangedEvent: the
+    task slots whose tasks it awaits (directly, through gather / wait / cancel_task, or through a repo method that returns them) must
+    not be filled with a coroutine from which Connection.disconnect is reachable in the call graph."""
+    repo = eng.repo
+    listeners: list[FuncInfo] = []
+    for f in repo.all_funcs():
+        for x in calls_on(f.node, 'register'):
+            if len(x.args) >= 2 and unparse(x.args[0]) == 'ConnectionStateChangedEvent' and isinstance(x.args[1], ast.Attribute) and unparse(x.args[1].value) == 'self' \
+                    and f.cls is not None:
+                m = next((c.methods[x.args[1].attr] for c in repo.mro(f.cls) if x.args[1].attr in c.methods), None)
+                if m is not None and m not in listeners:
+                    listeners.append(m)
+    ck.floor(rule + '.state_listeners', len(listeners), 6)
+    sinks = {eng.func(CONN, 'DataConnection.disconnect'), eng.func(CONN, 'Connection.set_state')}
+    memo: dict[FuncInfo, bool] = {}
+
+    def can_deliver(f: FuncInfo, depth=0, stack=()) -> bool:
+        if f in sinks:
+            return True
+        if f in memo:
+            return memo[f]
+        if f in stack or depth > 8:
+            return False
+        r = False
+        for x in calls_in(f.node):
+            for c in eng.res.callees(x, f):
+                if can_deliver(c, depth + 1, stack + (f,)):
+                    r = True
+                    break
+            if r:
+                break
+        memo[f] = r
+        return r
+
+    def slots_in(fn: FuncInfo, e: ast.AST, depth=0) -> set[str]:
+        """names of the attributes (task slots) whose values `e` denotes"""
+        if isinstance(e, ast.Starred):
+            return slots_in(fn, e.value, depth)
+        orig = e
+        e = expand_aliases(fn, e)
+        if unparse(e) == unparse(orig):
+            e = orig
+        out: set[str] = set()
+        if isinstance(e, ast.Attribute):
+            return {e.attr}
+        if isinstance(e, (ast.List, ast.Tuple, ast.Set)):
+            for x in e.elts:
+                out |= slots_in(fn, x, depth)
+            return out
+        if isinstance(e, ast.Call) and depth < 2:
+            for c in eng.res.callees(e, fn):
+                # what the method hands back: attributes appended to / listed in the value it returns
+                rets = [r.value for r in walk_local(c.node) if isinstance(r, ast.Return) and r.value is not None]
+                for r in rets:
+                    if isinstance(r, ast.Name):
+                        for y in calls_in(c.node):
+                            if call_name(y) in ('append', 'add', 'extend') and isinstance(y.func, ast.Attribute) and unparse(y.func.value) == r.id and y.args:
+                                out |= slots_in(c, y.args[0], depth + 1)
+                        out |= slots_in(c, r, depth + 1) if not isinstance(expand_aliases(c, r), ast.Name) else set()
+                    else:
+                        out |= slots_in(c, r, depth + 1)
+        if isinstance(e, ast.Name):
+            # a local filled in place
+            for y in calls_in(fn.node):
+                if call_name(y) in ('append', 'add', 'extend') and isinstance(y.func, ast.Attribute) and unparse(y.func.value) == e.id and y.args:
+                    out |= slots_in(fn, y.args[0], depth + 1)
+        return out
+    for L in listeners:
+        ck.visited(L)
+        waited: list[tuple[ast.AST, set[str]]] = []
+        for aw in [n for n in walk_local(L.node) if isinstance(n, ast.Await)]:
+            v = aw.value
+            if isinstance(v, ast.Call) and call_name(v) in ('gather', 'wait', 'wait_for', 'cancel_task', 'shield'):
+                sl = set()
+                for a_ in v.args:
+                    sl |= slots_in(L, a_)
+                if sl:
+                    waited.append((aw, sl))
+            elif isinstance(v, ast.Attribute):
+                waited.append((aw, {v.attr}))
+        bad = []
+        for aw, sl in waited:
+            for slot in sorted(sl):
+                for f_, st_, v_ in eng.stores_to_attr(slot):
+                    if v_ is None:
+                        continue
+                    for y in ast.walk(v_):
+                        if isinstance(y, ast.Call) and call_name(y) in ('create_task', 'ensure_future') and y.args and isinstance(y.args[0], ast.Call):
+                            for body in eng.res.callees(y.args[0], f_):
+                                if can_deliver(body):
+                                    bad.append((aw, slot, body))
+        why = ''
+        if bad:
+            aw, slot, body = bad[0]
+            why = (f'`{unparse(aw)[:70]}` waits for the task in `{slot}`, which runs {body.qualname}; that coroutine can reach Connection.disconnect (a failed send closes the '
+                   'connection from inside it, or from a child task it awaits): when the close is reported from there the listener waits for itself, every listener '
+                   'registered after it is never told')
+        ck.ob(rule, L, L.node, f'{L.qualname} (listener of the connection state report) awaits no task that can itself be delivering the report ({relies})', not bad, why,
+              construct=f'{L.qualname} awaits no deliverer')
+
+
+# --------------------------------------------------------------------------- only 'P' connections stay obfuscated after the init message
+def obfuscation_reset_definition(eng: Engine, ck: Check, rule: str, relies: str):
+    """The init message of a connection to / from an obfuscated port is obfuscated whatever the type; after it, only peer ('P') connections
+    go on obfuscated -- distributed and file connections talk plain.  PeerConnection.set_connection_state clears `obfuscated` for every
+    state other than AWAITING_INIT and every type other than PEER.  The states / types that reach the store are computed as sets of
+    members from the guards (not read off one spelling)."""
+    m = eng.func(CONN, 'PeerConnection.set_connection_state')
+    ck.visited(m)
+    sp = [p_ for p_ in m.params if p_ != 'self'][0]
+    states = {st.targets[0].id for st in eng.cls('PeerConnectionState', CONN).node.body
+              if isinstance(st, ast.Assign) and isinstance(st.targets[0], ast.Name) and not st.targets[0].id.startswith('_')}
+    types = {st.targets[0].id for st in eng.cls('PeerConnectionType', CONN).node.body
+             if isinstance(st, ast.Assign) and isinstance(st.targets[0], ast.Name) and not st.targets[0].id.startswith('_')}
+    stores = [st for st in walk_local(m.node) if isinstance(st, ast.Assign) and any(unparse(t) == 'self.obfuscated' for t in st.targets) and const(st.value) is False]
+    reach_s, reach_t = set(), set()
+    for st in stores:
+        adm_s, adm_t = set(states), set(types)
+        for e_, pol_, _ in eng.guards_at(m, st):
+            for e2, p2 in split_conj(expand_aliases(m, e_), pol_):
+                a2 = cmp_atom(e2)
+                if not a2 or a2[0] not in ('eq', 'is', 'in'):
+                    adm_s = adm_t = set()          # a test the fragment does not read: claims nothing for this store
+                    continue
+                if unparse(a2[1]) == sp:
+                    named = enum_members_in(a2[2]) & states
+                    adm_s &= named if p2 else states - named
+                elif mentions_attr(a2[1], 'connection_type'):
+                    named = enum_members_in(a2[2]) & types
+                    adm_t &= named if p2 else types - named
+                else:
+                    adm_s = adm_t = set()
+        if adm_s and adm_t:
+            # the store is reached for adm_s x adm_t
+            if adm_t >= types - {'PEER'}:
+                reach_s |= adm_s
+            if adm_s >= states - {'AWAITING_INIT'}:
+                reach_t |= adm_t
+    want_s, want_t = states - {'AWAITING_INIT'}, types - {'PEER'}
+    ok = reach_s >= want_s and reach_t >= want_t and 'PEER' not in reach_t and 'AWAITING_INIT' not in reach_s
+    ck.ob(rule, m, m.node, f'set_connection_state clears `obfuscated` exactly for the states {sorted(want_s)} and the types {sorted(want_t)} ({relies})', ok,
+          f'cleared for states {sorted(reach_s)} x types {sorted(reach_t)}: a connection outside that set keeps obfuscating after the init message (a distributed connection '
+          'over an obfuscated port is returned as established but neither side understands the other), or a peer connection stops obfuscating', construct='obfuscation reset')
+
+
 # --------------------------------------------------------------------------- network: finalisation of a peer connection
 def connection_finalisation(eng: Engine):
     """A peer connection is finalised by `c.set_connection_state(ESTABLISHED)` or, for file connections,
